@@ -1,5 +1,6 @@
 import Driver.Expr
 import Model.Audit
+import Model.AuditSession
 open Lean Drv Audit
 
 def kindOf : String → Except String AKind
@@ -52,6 +53,30 @@ def wfB (d : ADag) : Bool :=
     | none => true
     | some n => n.children.all (· < k)
 
+def parseLogit (j : Json) : Except String LogitData := do
+  pure { alts := ← intList (← j.getObjVal? "alts"), avKeys := ← intList (← j.getObjVal? "av"),
+         choices := ← intList (← j.getObjVal? "choices") }
+
+def parseSpec (j : Json) : Except String Spec := do
+  let d ← (← getArr j "dag").toList.mapM parseNode
+  if !wfB d || !leafWfB d then throw "ill-formed dag" else
+  pure { dag := d, root := ← getNat j "root" }
+
+def parseSOp (j : Json) : Except String SOp := do
+  match ← getStr j "o" with
+  | "evalExpr" => pure .evalExpr
+  | "evalBio" => pure (.evalBio (← getBool j "skip"))
+  | "setChoice" => pure (.setChoice (← getNat j "row") (← getInt j "v"))
+  | "scaleChoice" => pure (.scaleChoice (← getInt j "k"))
+  | "declarePanel" => pure .declarePanel
+  | "select" => pure (.select (← getNat j "i"))
+  | "dropColumn" => pure (.dropColumn (← getStr j "name"))
+  | "addColumn" => pure (.addColumn (← getStr j "name"))
+  | _ => throw "bad-op"
+
+def nestVerdictStr : NestVerdict → String
+  | .accepted => "accepted" | .outsideChoiceSet => "outside" | .overlap => "overlap"
+
 def handle (j : Json) : Except String Json := do
   let op ← getStr j "op"
   match op with
@@ -92,6 +117,27 @@ def handle (j : Json) : Except String Json := do
     if !Expr.wfB d then throw "ill-formed dag" else
     pure (Json.mkObj [("missing", DrvExpr.resJson (Expr.eval (Expr.semMissing code) d env k)),
                       ("engine", DrvExpr.resJson (Expr.eval Expr.semEngine d env k))])
+  | "logitrows" =>
+    -- the data-dependent part of LogLogit.audit on the rows given; get_value on a single choice
+    let L ← parseLogit j
+    pure (Json.mkObj [("faults", jStrs ((logitDataFaults L).map faultStr)),
+                      ("dedicated", jBool (argwhereAny (incorrectRows L.alts 0 L.choices))),
+                      ("getvalue", jArr (L.choices.map fun c => jBool (getValueRefuses L c)))])
+  | "nests" =>
+    let cs ← intList (← j.getObjVal? "choice_set")
+    let nests ← (← getArr j "nests").toList.mapM intList
+    pure (Json.mkObj [("verdict", jStr (nestVerdictStr (nestAudit cs nests)))])
+  | "session" =>
+    -- a history on the same objects: verdict of every evaluation, in order
+    let configs ← (← getArr j "configs").toList.mapM parseSpec
+    let logit ← match j.getObjVal? "logit" with
+      | .ok Json.null => pure none
+      | .ok v => (parseLogit v).map some
+      | .error _ => pure none
+    let s : SState := { configs, sel := ← getNat j "sel", cols := ← strList (← j.getObjVal? "cols"),
+                        panel := ← getBool j "panel", logit }
+    let ops ← (← getArr j "ops").toList.mapM parseSOp
+    pure (Json.mkObj [("verdicts", jArr ((run ops s).map fun v => jStrs (v.map faultStr)))])
   | _ => throw "bad-op"
 
 def main : IO Unit := Drv.run handle
